@@ -8,6 +8,8 @@ package threshold
 
 //@ type Scheme
 //@   invariant [logger] this.Logger != nil
+//@   invariant [config] this.Send != nil && this.Membership != nil && this.RBF != nil && this.SyncFactory != nil &&
+//@                      this.SignerFactory != nil && this.KeyGenFactory != nil
 //@
 //@ monitor (*Scheme).lock
 //@   guards syncsInProgress, rbcInProgress, messageClassifiers, dkgRunning
@@ -129,11 +131,17 @@ package threshold
 //@   props C10 C06
 //@   requires s != nil && membership != nil && dkgProtocolInstance != nil
 //@   requires typeIs(m, "*rbcMsg") && dyn(m, "*rbcMsg") != nil
+//@   on-call dkgProtocolInstance.OnMsg(pl, src, bc):
+//@     assert [source-party] UniversalID(from) in membership.uID2PID ==> src == uint16(membership.uID2PID[UniversalID(from)])
+//@     assert [payload]      same(pl, dyn(m, "*rbcMsg").payload) && bc == dyn(m, "*rbcMsg").broadcast
 //@
 //@ func (*Scheme).prepareSigning$2
 //@   props C10 C06
-//@   requires s != nil && signingProtocol != nil
+//@   requires s != nil && signingProtocol != nil && membership != nil
 //@   requires typeIs(m, "*rbcMsg") && dyn(m, "*rbcMsg") != nil
+//@   on-call signingProtocol.OnMsg(pl, src, bc):
+//@     assert [source-party] UniversalID(from) in membership.uID2PID ==> src == uint16(membership.uID2PID[UniversalID(from)])
+//@     assert [payload]      same(pl, dyn(m, "*rbcMsg").payload) && bc == dyn(m, "*rbcMsg").broadcast
 
 // ---- who takes part in a session's broadcast instance (C02, C03, C12) ------------------------------------------------
 
@@ -170,3 +178,100 @@ package threshold
 //@   props C13
 //@   on-call h.Write(b):
 //@     assert [member-bytes] len(b) == 2 && b[0] == byte(member) && b[1] == byte(member >> 8)
+
+// ---- node identifier <-> party identifier translation (C06) ----------------------------------------------------------
+
+//@ spec macro known(m *membership, ids []UniversalID) bool = forall i int :: 0 <= i && i < len(ids) ==> ids[i] in m.uID2PID
+
+//@ func computeMembership
+//@   props C06
+//@   modifies nothing
+//@   ensures [map] result != nil && result.uID2PID != nil &&
+//@                 (forall u UniversalID :: (u in result.uID2PID) == (u in mapping)) &&
+//@                 (forall u UniversalID :: u in mapping ==> result.uID2PID[u] == mapping[u])
+//@   loop 0: invariant universal2Protocol != nil && protocol2universal != nil &&
+//@             (forall u UniversalID :: (u in universal2Protocol) == (u in visited(mapping))) &&
+//@             (forall u UniversalID :: u in visited(mapping) ==> universal2Protocol[u] == mapping[u])
+//@
+//@ func (*membership).partyIDByUniversalID
+//@   props C06
+//@   modifies nothing
+//@   ensures [known]   id in m.uID2PID ==> result == m.uID2PID[id]
+//@   ensures [unknown] !(id in m.uID2PID) ==> result == 0
+//@
+//@ // ids are configured members (the synchroniser only agrees on configured members: C07)
+//@ func (*membership).partyIDsByUniversalIDs
+//@   props C06
+//@   requires known(m, ids)
+//@   modifies nothing
+//@   ensures [distinct] result.1 == nil ==> forall a int, b int :: 0 <= a && a < b && b < len(ids) ==> m.uID2PID[ids[a]] != m.uID2PID[ids[b]]
+//@   ensures [sorted]   result.1 == nil ==> len(result.0) == len(ids) &&
+//@                        forall i int, j int :: 0 <= i && i <= j && j < len(result.0) ==> result.0[i] <= result.0[j]
+//@   // (with equal lengths and pairwise distinct party ids, [all] implies that nothing else is in the result)
+//@   ensures [all]      result.1 == nil ==> forall j int :: 0 <= j && j < len(ids) ==>
+//@                        exists i int :: 0 <= i && i < len(result.0) && result.0[i] == m.uID2PID[ids[j]]
+//@   loop 0: invariant [shape]    len(res) == rangeindex+1 && -1 <= rangeindex && rangeindex < len(ids) && used != nil
+//@   loop 0: invariant [res]      forall k int :: 0 <= k && k <= rangeindex ==> res[k] == m.uID2PID[ids[k]]
+//@   loop 0: invariant [used]     forall k int :: 0 <= k && k <= rangeindex ==> m.uID2PID[ids[k]] in used
+//@   loop 0: invariant [distinct] forall a int, b int :: 0 <= a && a < b && b <= rangeindex ==> m.uID2PID[ids[a]] != m.uID2PID[ids[b]]
+//@
+//@ func partyIDsToUInts
+//@   props C06
+//@   modifies nothing
+//@   ensures [copy] len(result) == len(in) && forall i int :: 0 <= i && i < len(in) ==> result[i] == uint16(in[i])
+//@   loop 0: invariant len(res) == len(in) && forall i int :: 0 <= i && i <= rangeindex ==> res[i] == uint16(in[i])
+//@
+//@ func (*membership).sessionNodesByPartyID
+//@   props C06
+//@   requires known(m, participants)
+//@   modifies nothing
+//@   ensures [own-party]   result != nil && forall p PartyID :: p in result ==> result[p] in m.uID2PID && m.uID2PID[result[p]] == p
+//@   ensures [participant] forall p PartyID :: p in result ==> result[p] in elems(participants, len(participants))
+//@   ensures [covers]      forall i int :: 0 <= i && i < len(participants) ==> m.uID2PID[participants[i]] in result
+//@   loop 0: invariant [shape]  res != nil && -1 <= rangeindex && rangeindex < len(participants)
+//@   loop 0: invariant [own]    forall p PartyID :: p in res ==> res[p] in m.uID2PID && m.uID2PID[res[p]] == p
+//@   loop 0: invariant [member] forall p PartyID :: p in res ==> res[p] in elems(participants, rangeindex+1)
+//@   loop 0: invariant [covers] forall i int :: 0 <= i && i <= rangeindex ==> m.uID2PID[participants[i]] in res
+
+// What the back ends are told (C06): Init gets the sorted party ids; OnMsg gets the party id of the authenticated
+// source; a point-to-point message goes to exactly one node, the session's node of the addressed party.
+
+//@ func (*Scheme).initializeDKG
+//@   props C06
+//@   requires dkg != nil && membership != nil && known(membership, members)
+//@   on-call dkg.Init(ps, t, f):
+//@     assert [party-ids] len(ps) == len(parties) && forall i int :: 0 <= i && i < len(parties) ==> ps[i] == uint16(parties[i])
+//@   on-call (*membership).sessionNodesByPartyID(mm, list):
+//@     assert [session-list] same(list, members) && mm == membership
+//@   at makeclosure $1:
+//@     assert [own-party]   forall p PartyID :: p in nodeOfParty ==> nodeOfParty[p] in membership.uID2PID && membership.uID2PID[nodeOfParty[p]] == p
+//@     assert [participant] forall p PartyID :: p in nodeOfParty ==> nodeOfParty[p] in elems(members, len(members))
+//@
+//@ func (*Scheme).initializeDKG$1
+//@   props C06
+//@   requires s != nil
+//@   on-call s.Send(mt, tp, pl, dst):
+//@     assert [p2p-destination] !isBroadcast ==> len(dst) == 1 && PartyID(to) in nodeOfParty && dst[0] == nodeOfParty[PartyID(to)]
+//@
+//@ func (*Scheme).initializeThresholdSigning
+//@   props C06
+//@   requires membership != nil && known(membership, signers)
+//@   on-call signer.Init(ps, t, f):
+//@     assert [party-ids] len(ps) == len(parties) && forall i int :: 0 <= i && i < len(parties) ==> ps[i] == uint16(parties[i])
+//@   on-call (*membership).sessionNodesByPartyID(mm, list):
+//@     assert [session-list] same(list, signers) && mm == membership
+//@   at makeclosure $1:
+//@     assert [own-party]   forall p PartyID :: p in nodeOfParty ==> nodeOfParty[p] in membership.uID2PID && membership.uID2PID[nodeOfParty[p]] == p
+//@     assert [participant] forall p PartyID :: p in nodeOfParty ==> nodeOfParty[p] in elems(signers, len(signers))
+//@
+//@ func (*Scheme).initializeThresholdSigning$1
+//@   props C06
+//@   requires s != nil
+//@   on-call s.Send(mt, tp, pl, dst):
+//@     assert [p2p-destination] !isBroadcast ==> len(dst) == 1 && PartyID(to) in nodeOfParty && dst[0] == nodeOfParty[PartyID(to)]
+
+//@ func excludeUniversal
+//@   props C06 C12
+//@   modifies nothing
+//@   ensures [excluded] forall i int :: 0 <= i && i < len(result) ==> result[i] != x
+//@   loop 0: invariant forall i int :: 0 <= i && i < len(res) ==> res[i] != x
